@@ -44,7 +44,7 @@ def main(tier):
     rep = common.Report("C04", tier, "model_checking")
     cfgs = kernels.config_space(tier, common.seed())
     if tier == "quick":
-        cfgs = cfgs[::5]
+        cfgs = cfgs[::6]
     totals = []
     for mode in ("safety_r", "safety_w"):
         t = kernel_check.run_all(mode, cfgs)
